@@ -278,11 +278,14 @@ def safe_filename(filename, os_type='unix', no_control=True, ascii_only=True,
                 new_filename[:-1], ord(new_filename[-1])
             )
 
-    if max_length and len(new_filename) > max_length:
+    # The limit of a file system is in bytes, not characters.
+    if max_length and len(new_filename.encode(encoding)) > max_length:
         hash_obj = hashlib.sha1(new_filename.encode(encoding))
         new_length = max(0, max_length - 8)
         new_filename = '{0}{1}'.format(
-            new_filename[:new_length], hash_obj.hexdigest()[:8]
+            new_filename.encode(encoding)[:new_length]
+            .decode(encoding, 'ignore'),
+            hash_obj.hexdigest()[:8]
         )
 
     if case == 'lower':
